@@ -201,7 +201,7 @@ M("C09", "reverse=True dropped", F, "cli.py", "version_tags.sort(key=version.par
 M("C09", "sort key removed", F, "cli.py", "version_tags.sort(key=version.parse_version, reverse=True)", "version_tags.sort(reverse=True)", "maximum")
 M("C09", "filter removed", F, "cli.py", "    return [tag for tag in all_tags if version_parser.is_valid(tag, version_pattern)]", "    return [tag for tag in all_tags if version_parser.is_valid(tag, version_pattern) or True]", "R3", allow_error=True)
 M("C09", "default-scope compare flipped", F, "cli.py", "        if version.parse_version(latest_version_tag) <= version.parse_version(cfg.current_version):\n            # current_version already newer/up-to-date\n            return cfg",
-  "        if version.parse_version(latest_version_tag) >= version.parse_version(cfg.current_version):\n            # current_version already newer/up-to-date\n            return cfg", "wrong condition")
+  "        if version.parse_version(latest_version_tag) >= version.parse_version(cfg.current_version):\n            # current_version already newer/up-to-date\n            return cfg", "does not follow its rule")
 M("C09", "global scope also compares with config", F, "cli.py", "    if cfg.tag_scope == config.TagScope.DEFAULT:\n        logger.info(f\"Working dir version        : {cfg.current_version}\")", "    if cfg.tag_scope != config.TagScope.BRANCH:\n        logger.info(f\"Working dir version        : {cfg.current_version}\")", "R1", allow_error=True)
 M("C09", "date try/except removed (pre-fix shape)", F, "v2version.py", "        try:\n            date = dt.date(year_y, month, dom)\n        except ValueError as ex:\n            # e.g. day is out of range for month (February 30th)\n            err_msg = f\"Invalid date {year_y}-{month}-{dom}: {ex}\"\n            raise version.PatternError(err_msg)",
   "        date = dt.date(year_y, month, dom)", "ValueError escapes")
